@@ -30,6 +30,9 @@ def functions(tier):
     pats3 = [(None, None), (None, "0"), ("None", "0"), ("1", "''"), (None, "None"), ("False", "'x'")]
     for db, dc in pats3:
         out.append((f"g3_{len(out)}", [("a", None), ("b", db), ("c", dc)]))
+    # the kept callable is a class without methods in its source (a dataclass): its constructor binds the arguments
+    out.append((f"dc2_{len(out)}", [("a", None), ("b", "0")]))
+    out.append((f"dc3_{len(out)}", [("a", None), ("b", "None"), ("c", "'x'")]))
     if tier == "thorough":
         for db, dc, dd in [(None, None, "0"), (None, "0", "None"), ("1", "''", "False")]:
             out.append((f"g4_{len(out)}", [("a", None), ("b", db), ("c", dc), ("d", dd)]))
@@ -65,7 +68,11 @@ def call_text(fname, sp):
 def module_text(fname, params, table):
     """table: list of (binding values, [spellings])"""
     sig = ", ".join(p if d is None else f"{p}={d}" for p, d in params)
-    lines = ["import dds", "", f"def {fname}({sig}):", "    return 'r'", ""]
+    if fname.startswith("dc"):
+        lines = ["import dds", "import dataclasses", "", "@dataclasses.dataclass", f"class {fname}:"] + \
+                [f"    {p}: object" + ("" if d is None else f" = {d}") for p, d in params] + [""]
+    else:
+        lines = ["import dds", "", f"def {fname}({sig}):", "    return 'r'", ""]
     idx = 0
     index = []
     for values, sps in table:
@@ -79,7 +86,7 @@ def module_text(fname, params, table):
 def tables(tier):
     out = []
     for fname, params in functions(tier):
-        vals = VALUES if len(params) <= 2 else SMALLV
+        vals = VALUES if (len(params) <= 2 and not fname.startswith("dc")) else SMALLV
         table = []
         for combo in itertools.product(vals, repeat=len(params)):
             table.append((list(combo), spellings(params, list(combo))))
